@@ -132,7 +132,7 @@ def _count_array(case, counts):
     return np.asarray(counts, dtype=np.float64)
 
 
-def build(case, sel=None, counts=None):
+def build(case, sel=None, counts=None, raw=False):
     """The accessor object (LoadHistogram / LoadCollective) of the real implementation for the members `sel` (indices,
     None = all) with `counts` (None = the case's).  The load scale ALWAYS goes through the code's own `scale()`."""
     pl()
@@ -180,7 +180,7 @@ def build(case, sel=None, counts=None):
             acc = acc.use_class_left()
         elif loc == "right":
             acc = acc.use_class_right()
-        return acc
+        return (acc, ser) if raw else acc
 
     def one(pos):
         mem = [members[i] for i in pos]
@@ -197,7 +197,7 @@ def build(case, sel=None, counts=None):
     acc = df.load_collective
     if f != 1.0:
         acc = acc.scale(f)
-    return acc
+    return (acc, df) if raw else acc
 
 
 def eff_counts(case, counts=None):
@@ -328,6 +328,83 @@ def state_of(obj):
 
 def same(x, y):
     return x == y or (x != x and y != y)
+
+
+def snap(obj):
+    """Deep, independent copy of a pandas object / array the caller owns (taken before a call)."""
+    if isinstance(obj, (pd.Series, pd.DataFrame)):
+        c = obj.copy(deep=True)
+        c.index = obj.index.copy(deep=True)
+        return c
+    return np.array(obj, copy=True)
+
+
+COSMETIC = []      # per process: changes of an argument that alter no later result (renamed Series, added column, dtype) - counted, not failed
+
+
+def _vals(x):
+    a = np.asarray(x)
+    return a.astype(float) if a.dtype.kind in "iufb" else a
+
+
+def _same_index(a, b):
+    if len(a) != len(b) or a.nlevels != b.nlevels:
+        return False
+    return all(np.array_equal(np.asarray(a.get_level_values(i), dtype=object), np.asarray(b.get_level_values(i), dtype=object))
+               for i in range(a.nlevels))
+
+
+def differs(now, before):
+    """None when what a later call computes from `now` is what it computed from `before`: the VALUES and the INDEX (labels,
+    order) are unchanged (for a frame: of every column it had).  A renamed Series, renamed index levels, a changed dtype with
+    equal values and columns / keys ADDED to the caller's object are outside the property: noted in COSMETIC (statistics)."""
+    if isinstance(before, (pd.Series, pd.DataFrame)):
+        if type(now) is not type(before):
+            return f"type {type(before).__name__} -> {type(now).__name__}"
+        if not _same_index(now.index, before.index):
+            return f"index (labels, order) {list(before.index)[:8]} -> {list(now.index)[:8]}"
+        if isinstance(before, pd.Series):
+            if not np.array_equal(_vals(now), _vals(before), equal_nan=True):
+                return f"values {list(before)[:8]} -> {list(now)[:8]}"
+            if now.name != before.name:
+                COSMETIC.append("Series renamed")
+            if now.dtype != before.dtype:
+                COSMETIC.append("dtype changed, values equal")
+        else:
+            for col in before.columns:
+                if col not in now.columns:
+                    return f"column {col!r} removed"
+                if not np.array_equal(_vals(now[col]), _vals(before[col]), equal_nan=True):
+                    return f"column {col!r}: values {list(before[col])[:8]} -> {list(now[col])[:8]}"
+                if now[col].dtype != before[col].dtype:
+                    COSMETIC.append("dtype changed, values equal")
+            if len(now.columns) != len(before.columns):
+                COSMETIC.append("column added to the caller's frame")
+        if list(now.index.names) != list(before.index.names):
+            COSMETIC.append("index level renamed")
+        return None
+    a, b = np.asarray(now), np.asarray(before)
+    if a.shape != b.shape or not np.array_equal(_vals(a), _vals(b), equal_nan=True):
+        return f"array {b!r} -> {a!r}"
+    return None
+
+
+def other_curve(case):
+    """A second curve with different parameters (two objects alive at once)."""
+    if "curve2" in case:
+        return case["curve2"]
+    c = case["curve"]
+    return dict(c, k_1=float(c["k_1"]) + 1.0, SD=float(c["SD"]) * 1.5, ND=float(c["ND"]) * 2.0)
+
+
+def poke(ser):
+    """Overwrite a RESULT the code handed out (values in place) - it must be the caller's own copy."""
+    if isinstance(ser, pd.DataFrame):
+        ser.iloc[:, :] = -7.0
+    elif isinstance(ser, pd.Series):
+        ser.iloc[:] = -7.0
+    elif isinstance(ser, np.ndarray) and ser.flags.writeable and ser.ndim:
+        ser[...] = -7.0
 
 
 # ------------------------------------------------------------------ generators
@@ -492,7 +569,7 @@ def random_case(rng, tier):
         case["layout"] = lay
     # --- object state: a collective that goes through the held accessor objects first, and explicit call sequences
     case["pre"] = rng.choice(["a", "a", "b", "b", "x2", "t", "perm", "none"])
-    if rng.random() < 0.15:
+    if rng.random() < 0.10:
         case["seq"] = [[rng.choice(SEQ_OPS), rng.choice(VARIANTS)] for _ in range(rng.randint(2, 6))]
     # --- a second curve: data frame of curves (df.fatigue.damage)
     if rng.random() < 0.2:
@@ -562,9 +639,16 @@ def _harness_side(e):
     return f(e) if f else isinstance(e, (MemoryError, OSError, ImportError, RecursionError))
 
 
+def _work_with(prop, case):
+    del COSMETIC[:]
+    return prop._impl_lines(case), prop._oracle(case), sorted(set(COSMETIC))
+
+
 def _work(case):
-    """Runs in a forked worker: the implementation's answer lines and the oracle's verdict for one case."""
-    return _WORKER._impl_lines(case), _WORKER._oracle(case)
+    """Runs in a forked worker: the implementation's answer lines, the oracle's verdict and the noted cosmetic changes of
+    arguments for one case."""
+    del COSMETIC[:]
+    return _WORKER._impl_lines(case), _WORKER._oracle(case), sorted(set(COSMETIC))
 
 
 class C11(Prop):
@@ -620,6 +704,11 @@ class C11(Prop):
             "counts 1e-13 relative, variant order with 1e-12 relative head room, cycles of the Gassner-shifted curve 1e-10 relative, frame of curves 1e-12 relative; "
             "oracle additionally: scale() leaves its operand alone, held object = fresh object for every call of a "
             "sequence in both orders (bit-identical), curve Series / object state / collectives unmodified, data frame of curves pairs every row with its curve; "
+            "call-sequence cases (seeding round 6): TWO objects of each class with different curves alive at once and called alternately (given order with curve 1 first, "
+            "reverse order with curve 2 first), collectives built once and passed repeatedly (the same collective several times), every answer = fresh object on a freshly built "
+            "collective; after every call the collective's pandas object(s), the curve Series and the array argument N have unchanged values and index (labels, order); "
+            "results (damage, cycles, amplitude, cycles of the collective, Gassner curve) overwritten in place and asked again; one collective changed in place "
+            "(cycles of its first member) after the objects evaluated it = fresh objects on the changed data; every case: the case's collective has unchanged values and index after all evaluations; "
             "degenerate collectives: the code's Gassner cycles are observed to be non-finite; non-trivial = not "
             "degenerate, at least two occupied classes and (an empty class or classes on both sides of SD or a call sequence)")
     ASSUMPTIONS = [
@@ -627,6 +716,7 @@ class C11(Prop):
         "C11: curves with native failure_probability in {0.025, 0.1, 0.3, 0.5, 0.9, 0.975} and scatter TN/TS (both, one, none given): damage, cycles and gassner_cycles evaluate the curve shifted to 50 % - the model imports Model/Woehler.lean `transform` (C08) for it, scipy.stats.norm.ppf is a parameter `ppf` in the theorems and a series implementation in the driver (tolerance 1e-10 on shifted curves); the Miner accessors take one curve (Series); a data frame of curves is observed through df.fatigue.damage by the oracle only (every row with its own curve; collectives with unique labels - pandas cannot join on a non-unique index) and is not in the model",
         "C11: theorems over the reals with x/0 = 0 and 0^(-k) = 0; the guards ValidCurve (SD, ND > 0), ValidColl (amplitudes, counts >= 0) and Loaded (some occupied class with positive amplitude) are observed, on the generated cases, to be exactly the inputs on which the real code does not return NaN/inf (for collectives that are not Loaded the code's lifetime multiples / Gassner cycles are observed to be NaN or inf - pinned by the check, model answer `degenerate`); effective_damage_sum_bounds holds over the reals for every A, the code is defined for A > 0 only (effective_damage_sum_of_collective: that is what it gets); pandas/numpy summation order and np.power rounding are not modelled (tolerance)",
         "C11: object state: the accessor objects (gassner_miner_elementary, gassner_miner_haibach, fatigue) are modelled as a state machine whose state is the class and the validated curve (Model/Miner.lean Obj/Op/step/run); the model's step hands the state on unchanged, i.e. it SAYS the code keeps nothing between calls - that this is true of the code is not proved but checked: every case evaluates another collective on the held objects first, call sequences on one object are compared with Miner.run (answers and final state) and with fresh objects in both orders; state of the interpreter outside these objects (module globals, pandas caches) is not modelled",
+        "C11: argument integrity is judged by what a later call computes: values and index (labels, order) of the collective's pandas object, of the curve Series and of array arguments must be unchanged after a call; a renamed Series / index level, a changed dtype with equal values, a column or key ADDED to the caller's object change no later result and are outside the property - they are counted in the evidence (distribution.argument_changes_outside_the_property), not failed; `to_pandas()` is documented to expose the signal's own object and is not treated as a result that must not alias",
         "C11: the model is the REPAIRED Miner code (/repo commits 110dd2d: Gassner cycles from the largest occupied amplitude, and 54050c5: Haibach knee at the 50 % endurance limit); on a tree without these repairs the oracle reports the finding classes gassner-*-empty-top-class / gassner-*-below-SD / gassner-haibach-native-knee.  Two further repairs lie outside the model and are seen by the oracle only: collective-scale-modifies-operand (fixed by 3af2b75, LoadCollective.scale / shift) and frame-of-curves-one-level-multiindex (fixed by 190635a, Broadcaster)",
     ]
 
@@ -658,7 +748,7 @@ class C11(Prop):
                       "all_above_SD": 0, "straddle_SD": 0, "amplitude_exactly_SD": 0, "scaled": 0,
                       "scaled_through_scale_method": 0, "by_failure_probability": {}, "curve_shifted_to_50pct": 0,
                       "knee_shifted_to_50pct": 0, "only_TN_given": 0, "k1_below_one": 0, "int64_counts": 0,
-                      "sequence_cases": 0, "sequence_calls": 0, "by_sequence_op": {}, "frame_of_curves": 0}
+                      "argument_changes_outside_the_property": {}, "sequence_cases": 0, "sequence_calls": 0, "by_sequence_op": {}, "frame_of_curves": 0}
         self.exhaustive = False
         self._verdicts = {}
 
@@ -765,14 +855,17 @@ class C11(Prop):
             self._count(c, ref_amplitudes(c), eff_counts(c))
         nproc = min(16, os.cpu_count() or 1, max(1, len(cases) // 40))
         if nproc <= 1:
-            res = [(self._impl_lines(c), self._oracle(c)) for c in cases]
+            res = [_work_with(self, c) for c in cases]
         else:
             _WORKER = self
             with mp.get_context("fork").Pool(nproc) as pool:
                 res = pool.map(_work, cases, chunksize=max(1, len(cases) // (nproc * 8)))
         self.stats["processes"] = nproc
-        for c, (_lines, verdict) in zip(cases, res):
+        for c, (_lines, verdict, notes) in zip(cases, res):
             self._verdicts[json.dumps(c, sort_keys=True)] = verdict
+            for note in notes:      # cases in which an argument came back changed in a way no later result depends on
+                d = self.stats["argument_changes_outside_the_property"]
+                d[note] = d.get(note, 0) + 1
         return [r[0] for r in res]
 
     def impl_lines(self, case):
@@ -929,7 +1022,9 @@ class C11(Prop):
         tn, ts, pf = scatter_of(case["curve"])
         with warnings.catch_warnings():
             warnings.simplefilter("ignore")
-            lc = build(case)
+            lc, lc_raw = build(case, raw=True)
+            owned = [(lc_raw, snap(lc_raw), "the pandas object the collective was made from"),
+                     (lc.to_pandas(), snap(lc.to_pandas()), "the pandas object of the collective accessor")]
             got_amp = [float(x) for x in np.asarray(lc.amplitude, dtype=float)]
             if got_amp != amps:
                 return (f"amplitude accessor {got_amp} != class amplitudes {amps} (load scale {case.get('scale', 1.0)} applied by the collective's scale())", "amplitude-accessor")
@@ -1075,6 +1170,10 @@ class C11(Prop):
             after = [float(x) for x in np.asarray(lc.amplitude, dtype=float)], [float(x) for x in np.asarray(lc.cycles, dtype=float)]
             if after != (amps, counts):
                 return (f"the collective was modified by the evaluations: amplitudes/cycles {after} after, {(amps, counts)} before", "collective-modified")
+            for now, was, what in owned:        # bit for bit: values, index, names, dtypes, columns
+                d = differs(now, was)
+                if d is not None:
+                    return (f"the evaluations of this case (damage, Gassner cycles, lifetime multiples, scale) modified {what}: {d}", "argument-modified")
         # --- effective damage sum for arbitrary multiples
         for A in (1e-9, 0.5, 1.0, 16.0, 17.0, 1975.308641975309, 1e12, float(case.get("t", 2.0)) + 0.001):
             dm = miner.effective_damage_sum(A)
@@ -1094,43 +1193,115 @@ class C11(Prop):
         return None
 
     def _sequences(self, case):
-        """case['seq'] on ONE object of each class in the given and in the reverse order: every answer must be the answer
-        of a fresh object (and a freshly built collective) to that single call."""
+        """case['seq'] as calls on accessor objects that live on (audit D11-1, seeding round 6: state that goes stale, arguments
+        that are modified, results that alias internal state).  Two objects of each class with DIFFERENT curves are alive at once
+        and are called alternately, once in the given order (first curve first) and once in the reverse order (second curve
+        first); the collectives are built once and passed again and again; then one collective is changed in place and every
+        call is repeated.  Every answer must be, bit for bit, the answer of a fresh object to a freshly built collective; every
+        argument must be, bit for bit, what it was before the call; overwriting a returned Series must not change the next
+        answer."""
         plan = seq_plan(case)
         if not plan:
             return None
         label = {"e": "Miner-elementary", "h": "Miner-Haibach", "f": "fatigue"}
+        curves = [case["curve"], other_curve(case)]
         fresh = {}
-        for kind in ("e", "h", "f"):
-            for i, (op, name, _a, n) in enumerate(plan):
-                if op in OBJ_OPS[kind]:
-                    fresh[kind, i] = call(make_obj(kind, curve_series(case["curve"])), op, vbuild(case, name), sum(n))
-        for order in (list(range(len(plan))), list(reversed(range(len(plan))))):
-            wc = curve_series(case["curve"])
-            lcs = {}
+        for c, curve in enumerate(curves):
             for kind in ("e", "h", "f"):
-                obj = make_obj(kind, wc)
-                before = state_of(obj)
+                for i, (op, name, _a, n) in enumerate(plan):
+                    if op in OBJ_OPS[kind]:
+                        fresh[c, kind, i] = call(make_obj(kind, curve_series(curve)), op, vbuild(case, name), np.array([float(sum(n))]))
+        for rev in (False, True):
+            order = list(reversed(range(len(plan)))) if rev else list(range(len(plan)))
+            wcs = [curve_series(c) for c in curves]
+            wcs_before = [snap(w) for w in wcs]
+            held, owned = {}, {}          # collective accessors / the pandas objects behind them, with their snapshots
+            for _op, name, _a, _n in plan:
+                if name not in held:
+                    vc, sel = variant(case, name)
+                    acc, raw = build(vc, sel, raw=True)
+                    held[name] = acc
+                    owned[name] = [(raw, snap(raw), "the pandas object the collective was made from"),
+                                   (acc.to_pandas(), snap(acc.to_pandas()), "the pandas object of the collective accessor")]
+            for kind in ("e", "h", "f"):
+                objs = [make_obj(kind, w) for w in wcs]
+                before = [state_of(o) for o in objs]
                 done = []
                 for i in order:
                     op, name, _a, n = plan[i]
                     if op not in OBJ_OPS[kind]:
                         continue
-                    if name not in lcs:
-                        lcs[name] = vbuild(case, name)
-                    got = call(obj, op, lcs[name], sum(n))
-                    if not same(got, fresh[kind, i]):
-                        return (f"one {label[kind]} object, calls so far {done}: {op}({name!r} collective) returns {got!r}, a fresh object returns "
-                                f"{fresh[kind, i]!r} (curve {case['curve']}, collective '{name}' = amplitudes/counts {vdata(case, name)})", "object-state")
-                    done.append(f"{op}({name})")
-                after = state_of(obj)
-                if any(not same(x, y) for x, y in zip(before, after)):
-                    return (f"one {label[kind]} object after the calls {done}: holds {dict(zip(STATE_KEYS, after))}, before {dict(zip(STATE_KEYS, before))}", "object-state")
-            for name, held in lcs.items():
+                    N = np.array([float(sum(n))])
+                    N_before = snap(N)
+                    for c in ((1, 0) if rev else (0, 1)):
+                        got = call(objs[c], op, held[name], N)
+                        who = f"{label[kind]} object of curve {c + 1} ({curves[c]}), the object of the other curve ({curves[1 - c]}) alive and called alternately"
+                        if not same(got, fresh[c, kind, i]):
+                            return (f"{who}; calls so far {done}: {op}({name!r} collective) returns {got!r}, a fresh object with a freshly built collective returns "
+                                    f"{fresh[c, kind, i]!r} (collective '{name}' = amplitudes/counts {vdata(case, name)})", "object-state")
+                        done.append(f"{op}[curve {c + 1}]({name})")
+                        if len(wcs[c]) > len(wcs_before[c]) and all(k in wcs[c].index for k in wcs_before[c].index):
+                            COSMETIC.append("key added to the caller's curve Series")       # informational key: outside the property
+                            wcs_now = wcs[c][list(wcs_before[c].index)]
+                        else:
+                            wcs_now = wcs[c]
+                        for now, was, what in owned[name] + [(wcs_now, wcs_before[c], "the curve Series"), (N, N_before, "the array N")]:
+                            d = differs(now, was)
+                            if d is not None:
+                                return (f"{who}: {op}({name!r} collective) modified its argument - {what}: {d}", "argument-modified")
+                after = [state_of(o) for o in objs]
+                for c in (0, 1):
+                    if any(not same(x, y) for x, y in zip(before[c], after[c])):
+                        return (f"one {label[kind]} object after the calls {done}: holds {dict(zip(STATE_KEYS, after[c]))}, before {dict(zip(STATE_KEYS, before[c]))}", "object-state")
+            for name, acc in held.items():
                 a, n = vdata(case, name)
-                got = [float(x) for x in np.asarray(held.amplitude, dtype=float)], [float(x) for x in np.asarray(held.cycles, dtype=float)]
+                got = [float(x) for x in np.asarray(acc.amplitude, dtype=float)], [float(x) for x in np.asarray(acc.cycles, dtype=float)]
                 if got != (a, n):
                     return (f"the collective '{name}' was modified by the calls: amplitudes/cycles {got} after, {(a, n)} before", "collective-modified")
+        # --- results handed out are the caller's: overwrite them, ask again (objects and collectives of the last pass live on)
+        name = plan[0][1]
+        acc = held[name]
+        fat, me = make_obj("f", wcs[0]), make_obj("e", wcs[0])
+        for what, fn in (("fatigue.damage(collective)", lambda: fat.damage(acc)),
+                         ("fatigue.cycles(collective.amplitude)", lambda: fat.cycles(acc.amplitude)),
+                         ("collective.amplitude", lambda: acc.amplitude),
+                         ("collective.cycles", lambda: acc.cycles),
+                         ("gassner_miner_elementary.gassner(collective).to_pandas()", lambda: me.gassner(acc).to_pandas())):
+            first = fn()
+            keep = snap(first)
+            poke(first)
+            d = differs(fn(), keep)
+            if d is not None:
+                return (f"{what} of collective '{name}': after the returned object was overwritten in place the same call returns something else: {d} "
+                        f"(the result aliases internal state)", "result-aliases-state")
+        for now, was, what in owned[name]:
+            d = differs(now, was)
+            if d is not None:
+                return (f"overwriting results returned for collective '{name}' changed {what}: {d}", "result-aliases-state")
+        # --- a collective changed in place between calls (only where the accessor reads the caller's own object)
+        for name in held:
+            vc, sel = variant(case, name)
+            raw = owned[name][0][0]
+            if held[name].to_pandas() is not raw or vc.get("unit_cycles"):
+                continue
+            a, n = vdata(case, name)
+            n2 = [2.0 * n[0] + 3.0] + list(n[1:])
+            todo = [(c, kind, op) for c in (0, 1) for kind in ("e", "h", "f") for op, nm, _a, _n in plan if nm == name and op in OBJ_OPS[kind]]
+            objs = {(c, kind): make_obj(kind, wcs[c]) for c, kind, _op in todo}
+            for c, kind, op in todo:
+                call(objs[c, kind], op, held[name], np.array([float(sum(n))]))       # the objects have seen the collective as it was
+            if isinstance(raw, pd.DataFrame):
+                raw.iloc[0, raw.columns.get_loc("cycles")] = n2[0]
+            else:
+                raw.iloc[0] = n2[0]
+            for c, kind, op in todo:
+                got = call(objs[c, kind], op, held[name], np.array([float(sum(n2))]))
+                want = call(make_obj(kind, curve_series(curves[c])), op, build(vc, sel, counts=n2), np.array([float(sum(n2))]))
+                if not same(got, want):
+                    return (f"collective '{name}' changed in place (cycles of its first member {n[0]} -> {n2[0]}) after the {label[kind]} object had evaluated it: "
+                            f"{op} returns {got!r}, fresh objects on the changed data return {want!r} (curve {curves[c]}, amplitudes {a}, counts {n2})",
+                            "object-state")
+            break            # one collective per case
         return None
 
     def _frame_of_curves(self, case, lc, amps, counts):
